@@ -2,7 +2,7 @@
 from .. import AnalysisBroken
 from ..nnabs import MOD
 from ..terms import show, strip_all
-from ._nn import check_candidates, check_engines_stateless, check_bfs, check_readonly_method, check_role_forwarding, get_nn, resolve_callee, run_fga, wh
+from ._nn import check_candidates, check_engines_stateless, check_bfs, check_edit_generators, check_readonly_method, check_role_forwarding, get_nn, resolve_callee, run_fga, wh
 
 CLAIMED = True
 LEVEL = "other"
@@ -28,6 +28,7 @@ def run(r):
     check_engines_stateless(r, "C03-STATE", entries=("symdel", "SymdelDB.lookup", "LookupDB.lookup", "SymdelDB.__init__", "LookupDB.__init__"))
     run_fga(r, "C03", {"none"}, labels={"SymdelDB.lookup", "LookupDB.lookup"}, floor=4)
     check_bfs(r, "C03-BFS")
+    check_edit_generators(r, "C03-BFS")
     rep.floor("C03-BFS", 6)
     # symdel's two-collection branch delegates to SymdelDB(seqs, max_edits).lookup(seqs2, ...)
     nn = get_nn(r)
